@@ -95,8 +95,8 @@ H("h_linear::lin_leq_ids_2_backtrack", "pumpkin-solver", "lin_leq", ALLO, "thoro
   full_range=True, covers=["propagation after a change"], timeout=2400)
 
 H("h_linear::lin_ne_ids_2", "pumpkin-solver", "lin_ne", ALLO, "thorough", LIN_NE,
-  "x1,x2: any interval with 1 hole; rhs any i32; two symbolic changes; V,W",
-  "n=2 DomainId terms, 1 hole, posting + 2 changes with notify(Assign) through the real watch list",
+  "x1,x2: any interval with 1 hole; rhs any i32; one symbolic change; V,W",
+  "n=2 DomainId terms, 1 hole, posting + 1 change with notify(Assign) through the watch table",
   covers=["propagation after a change"],
   full_range=True, timeout=3600, mem_gb=24)
 H("h_linear::lin_ne_ids_3", "pumpkin-solver", "lin_ne", ALLO, "thorough", LIN_NE,
@@ -190,6 +190,24 @@ H("h_reified::reified_leq_1_change", "pumpkin-solver", "reified", ALLO, "quick",
   "x1 any interval; r in {free,true,false}; c; one symbolic change (to r or x1); V,W",
   "r -> x1<=c, posting + 1 change with notify through the watch table", full_range=True,
   covers=["propagation at posting with live witness", "propagation after a change"], timeout=3000, mem_gb=20)
+WRAP = REIF + ["inner propagator: harness-defined model `UpperBoundModel` (x1 <= c, implements "
+              "detect_inconsistency) - the generic wrapper is the code under test"]
+H("h_wrapper::wrapper_interrupted", "pumpkin-solver", "reified", ALLO, "quick", WRAP,
+  "x1 any interval; r in {free,true,false}; c any i32; two symbolic changes (to r or x1); V,W",
+  "ReifiedPropagator<UpperBoundModel>: posting, first change notified (notify may cache an "
+  "inconsistency) but propagation interrupted, backtrack to the root (real synchronise), second "
+  "change notified, propagate", full_range=True,
+  covers=["change notified, propagation interrupted", "propagation after the backtrack"],
+  timeout=2400, mem_gb=12, only_props=["C09", "C17", "C02"])
+H("h_wrapper::wrapper_change", "pumpkin-solver", "reified", ALLO, "thorough", WRAP,
+  "x1 any interval; r in {free,true,false}; c any i32; one symbolic change; V,W",
+  "ReifiedPropagator<UpperBoundModel>: posting + 1 change with notify through the watch table",
+  full_range=True, timeout=3000, mem_gb=12, only_props=["C09", "C17", "C02"])
+H("h_wrapper::wrapper_backtrack", "pumpkin-solver", "reified", ALLO, "thorough", WRAP,
+  "x1 any interval; r in {free,true,false}; c any i32; two symbolic changes; V,W",
+  "ReifiedPropagator<UpperBoundModel>: posting, change, propagate, backtrack (real synchronise), "
+  "second change, propagate", full_range=True, timeout=4000, mem_gb=16,
+  only_props=["C09", "C17", "C02"])
 H("h_reified::reified_leq_1_interrupted", "pumpkin-solver", "reified", ALLO, "thorough",
   REIF + LIN_LEQ,
   "x1 any interval; r in {free,true,false}; c; two symbolic changes; V,W",
@@ -272,15 +290,21 @@ CUM_IN = ("1-2 profile tasks + the propagated task: start times any sub-interval
           "every profile task has a mandatory part covering the profile (validity of the profile)")
 for _n, _tier, _mem, _to in [
     ("cumulative_pointwise_1", "quick", 16, 2400),
+    ("cumulative_pointwise_1_holes", "quick", 16, 2400),
     ("cumulative_naive_1", "thorough", 40, 3600),
     ("cumulative_big_step_1", "thorough", 40, 3600),
     ("cumulative_big_step_1_holes", "thorough", 50, 3600),
     ("cumulative_pointwise_2", "thorough", 40, 3600),
 ]:
+    _holes = _n.endswith("_holes")
     H("h_cumulative::" + _n, "pumpkin-solver", "cumulative", ["O1", "O2", "O3", "O4", "O7"], _tier,
-      CUM, CUM_IN, "one (profile, task) step of propagate_single_profiles; time points -2..4; "
-      "unwind 10", timeout=_to, mem_gb=_mem, only_props=["C08"],
-      covers=["lower bound update possible", "propagation"])
+      CUM, CUM_IN if not _holes else CUM_IN.replace("durations 1-2", "durations 1-3") +
+      "; allow_holes_in_domain: the removed range starts at the task's lower bound or has at most "
+      "2 values (capacity of the shadow store)",
+      "one (profile, task) step of propagate_single_profiles; time points -2..%d; "
+      "unwind 10" % (5 if _holes else 4), timeout=_to, mem_gb=_mem, only_props=["C08"],
+      covers=["hole update possible", "propagation"] if _holes else
+      ["lower bound update possible", "propagation"])
 for _n in ("cumulative_conflict_naive_2", "cumulative_conflict_big_step_2",
            "cumulative_conflict_pointwise_2"):
     H("h_cumulative::" + _n, "pumpkin-solver", "cumulative", ["O2", "O4", "O7"], "quick",
@@ -289,6 +313,14 @@ for _n in ("cumulative_conflict_naive_2", "cumulative_conflict_big_step_2",
       "2 profile tasks with mandatory parts covering the profile, height > capacity; V any point",
       "time points -2..4, durations 1-2", timeout=900, mem_gb=4, only_props=["C08"],
       covers=["overloaded valid profile"])
+for _n in ("time_table_from_events_1", "time_table_from_events_2",
+           "time_table_from_events_2_conflicts"):
+    H("h_timetable::" + _n, "pumpkin-solver", "cumulative", ["K-timetable", "O2", "O4", "O7"],
+      "thorough", ["time_table_over_interval::create_time_table_from_events (through the hook "
+                   "verif_time_table_from_events)", "create_conflict_explanation"],
+      "1-2 tasks: start times any sub-interval of [-2,2], durations 1-2, usages 1-4, capacity; "
+      "events of the mandatory parts in the order create_events documents",
+      "time points -2..3; unwind 4-6", timeout=3000, mem_gb=56, only_props=["C08"])
 H("h_cumulative::cumulative_create_tasks_filters", "pumpkin-solver", "cumulative",
   ["K-tasks", "O7"], "quick", ["cumulative::utils::util::create_tasks"],
   "3 tasks with durations and usages in 0..3", "3 tasks", timeout=900, mem_gb=4,
@@ -390,7 +422,7 @@ PROPERTY_TAGS = {
     "C12": ["O1", "K-view", "K-round", "K-assume"],
     "C16": ["O7", "O1", "O2", "O3", "K-view", "K-round"],
     "C17": ["O1", "O2", "O3", "O4"],
-    "C08": ["O1", "O2", "O3", "O4", "O7", "K-tasks"],
+    "C08": ["O1", "O2", "O3", "O4", "O7", "K-tasks", "K-timetable"],
     "C09": ["O1", "O2", "O3", "O4", "O5"],
 }
 
@@ -399,6 +431,23 @@ PROPERTY_TAGS = {
 # once and either ran out of memory (limit given) or was not affordable to validate within this
 # machine's budget. They can be run by hand (bin/kani1.sh); nothing is claimed from them.
 UNREGISTERED = {
+    "h_timetable::time_table_from_events_1": "one task, two events: 590 k program steps, CBMC "
+        "reaches 56 GB after 20 min in propositional reduction (Vec<ResourceProfile> with cloned "
+        "Vec<Rc<Task>>, Vec::remove, Rc drops); the harness body runs natively (it confirmed "
+        "defect 11 and its repair)",
+    "h_timetable::time_table_from_events_2": "not run (the one-task instance is out of memory)",
+    "h_timetable::time_table_from_events_2_conflicts": "not run (as above)",
+    "h_cumulative::cumulative_naive_1": "CBMC runs out of memory under a 40 GB cap (the naive "
+        "explanation collects one predicate per profile task into a Vec under symbolic control)",
+    "h_cumulative::cumulative_big_step_1": "CBMC runs out of memory under a 40 GB cap",
+    "h_linear::lin_ne_ids_2": "with an initial hole the symbolic removal plus the propagator's own "
+        "removal need 3 holes per variable and the shadow store has 2 (the harness stops with "
+        "'hole capacity exceeded'); the scenario without initial holes is lin_ne_ids_2_backtrack",
+    "h_e2::e2_div_floor": "CaDiCaL does not finish the 32-bit division circuit within 3000 s; "
+        "the same function is decided at full width by E2 (MIR->SMT, integer encoding)",
+    "h_e2::e2_div_ceil": "as e2_div_floor",
+    "h_e2::e2_view_lower_bound_predicate": "as e2_div_floor (invert divides by the scale)",
+    "h_e2::e2_view_upper_bound_predicate": "as e2_div_floor (invert divides by the scale)",
     "h_linear::lin_leq_ids_3_change": "no verdict after 2400 s (3.7 M variables, 21 M clauses)",
     "h_linear::lin_leq_views_2_m3": "2224 s, then a failing run that was not triaged; not re-run",
     "h_linear::lin_ne_ids_3": "out of memory at 22 GB",
